@@ -18,12 +18,22 @@ from .lre_common import model, per, fr, quiet, level_of, state_of
 
 SS = {"step_tolerance": 1e6}      # success is judged on the 1e-12 residual tolerance (neqs otherwise stops an exactly solved system with "cannot make further progress")
 TOL = 1e-8
+ONE_STEP = "stacked_time/one-newton-step"
 CONFIGS = (("stacked_time", "first_order", "first_order"), ("stacked_time", "data", "first_order"),
-           ("stacked_time", "first_order", "data"), ("stacked_time", "data", "data"), ("period_by_period", None, None))
+           ("stacked_time", "first_order", "data"), ("stacked_time", "data", "data"), ("period_by_period", None, None),
+           (ONE_STEP, "first_order", "data"), (ONE_STEP, "data", "data"))
 
 
 def simulate(chk, m, db, span, method, terminal, guess):
     kw = {"method": method, "return_info": True, "remove_terminal": False, "when_fails": "silent", "solver_settings": dict(SS)}
+    if method == ONE_STEP:
+        # the stacked system of a linear model is linear in the unknowns: ONE full Newton step from any starting point lands on the
+        # solution if and only if the Jacobian (incl. the terminal-condition part) is the true one; success is not reported after one step
+        kw["method"] = "stacked_time"
+        kw["solver_settings"] = dict(SS, max_iterations=1)
+        kw["terminal"], kw["initial_guess"] = terminal, guess
+        sim, info = quiet(m.simulate, db, span, **kw)
+        return sim, info
     if method == "stacked_time":
         kw["terminal"], kw["initial_guess"] = terminal, guess
     sim, info = quiet(m.simulate, db, span, **kw)
@@ -115,13 +125,16 @@ def check_linear(chk, sc, out, path, cfg, tn):
             e = float(fr(path[k][j]))
             g = state_of(n, logv, get(sim, n, k))
             if not abs(g - e) <= TOL * max(1.0, abs(e)):
-                chk.mismatch(tag + ":path", desc + ": %s%s in period %d is %r, the first-order path of the same inputs is %r" % ("log " if n in logv else "", n, k, g, e), payload)
+                chk.mismatch(tag + ":path", desc + ": %s%s in period %d is %r, the first-order path of the same inputs is %r%s" % (
+                    "log " if n in logv else "", n, k, g, e, " (after ONE Newton step from an arbitrary starting point: the stacked-time Jacobian is not the true one)" if method == ONE_STEP else ""), payload)
                 return True
     for n in out["mvars"]:
         for k in range(1, tn + 1):
             if get(sim, n, k) != get(db, n, k):
                 chk.mismatch(tag + ":measurement", desc + ": measurement variable %s in period %d was %r on input and is %r on output" % (n, k, get(db, n, k), get(sim, n, k)), payload)
                 return True
+    if method == ONE_STEP:
+        return True
     fr_ = frames_ok(chk, tag, desc, payload, info, out["breaks"], method, tn)
     if fr_ is not None and writeback_ok(chk, tag, desc, payload, sim, info, fr_, list(out["vars"])):
         frame_clause_linear(chk, tag, desc, payload, out, db, sim, info, fr_, terminal if method == "stacked_time" else "data", tn, logv)
@@ -279,7 +292,9 @@ def run(chk):
         for ci, cfg in enumerate(CONFIGS):
             if cfg[0] == "period_by_period" and out["fwd"] != 0:
                 continue
-            if not thorough and cfg[0] == "stacked_time" and ci != 0 and (i + ci) % 4 != 0:
+            if cfg[0] == ONE_STEP and not out["linear"]:
+                continue            # L6 is linear in logs only: one step is not enough
+            if not thorough and cfg[0] in ("stacked_time", ONE_STEP) and ci != 0 and (i + ci) % 4 != 0:
                 continue
             ok = check_linear(chk, sc, out, path, cfg, 4)
             n += 1
@@ -297,7 +312,7 @@ def run(chk):
         if not out["holds"]:
             raise MachineryError("StackedMC: certificate false in dump")
         for cfg in CONFIGS:
-            if cfg[0] == "period_by_period" and sc["model"] != "T1":
+            if cfg[0] == ONE_STEP or (cfg[0] == "period_by_period" and sc["model"] != "T1"):
                 continue
             ok = (check_clause if sc["model"] == "T3" else check_exact)(chk, sc, out, cfg, 3)
             n += 1
